@@ -1,5 +1,5 @@
 """C01 -- compiled programs behave as their source prescribes (lowering tables)."""
-from rules import hirq, mirq
+from rules import hirq, mirq, origins
 from rules.core import walk, norm_path, AnchorMissing
 from props import c06, c07, c16
 
@@ -15,7 +15,10 @@ EXPLANATION = (
     "the resolver but missing here reaches unreachable!()); R4 ValueType::is_signed is exactly the five iN types; "
     "R5 both parsers agree on token->operator tables and on which function takes operands from which (precedence and "
     "associativity layering) -- shared with C16.R5; R6 the generator's loop lowering peels the final `loop` (shared "
-    "with C06.R4) and Goto/Label lower through find_or_append_labeled_block. Address computation, autoderef insertion "
+    "with C06.R4) and Goto/Label lower through find_or_append_labeled_block; R7 members are addressed by the index the typer "
+    "found by name: backward def-use slices show that analyze_member_access returns the enumerate index under the name "
+    "equality test, that the typer, the resolver and the generator's insertvalue/extractvalue/GEP operands all derive "
+    "from that offset and never from the position of a member in the source text. Address computation, autoderef insertion "
     "and wrap-around arithmetic are value-level and not decided.")
 
 GEN_EXPR = "<alpha::resolved::Expression as alpha::generator::Generatable>::generate"
@@ -190,6 +193,88 @@ def r6_lowering(run, F):
     run.ob("R6-GOTO-LABEL-LOWERING", "If", "LLVMBuildCondBr" in calls, F.where(s), "if lowers to a conditional branch: %s" % calls)
 
 
+def r7_member_index(run, F):
+    """Members are addressed by the index the typer found by *name*: the index operand of every struct insert/extract/GEP
+    derives from the resolved `offset`, never from the position of the member in the source text."""
+    RULE = "R7-MEMBER-INDEX"
+
+    def pos_based(o):
+        return any(x[0] == "call" and x[1].endswith("::enumerate") for x in o)
+    # 1. typer: offset = position of the member with the same name in the declared structure
+    ma = F.body("alpha::typer::Typer::analyze_member_access")
+    rets = []
+    for n in walk(ma["hir"]):
+        if n.get("k") == "If" and hirq.summarize_bool(n["cond"]) in ("(name.name == access.name)", "(access.name == name.name)"):
+            for r in walk(n["then"]):
+                if r.get("k") == "Ret":
+                    rets.append(origins.origins(ma["hir"], r.get("e"), ma.get("params", ())))
+    ok = len(rets) == 1 and ("tuplepos", 0) in rets[0] and ("field", "members") in rets[0] and \
+        any(x[0] == "call" and x[1].endswith("::enumerate") for x in rets[0])
+    run.ob(RULE, "typer: offset by name", ok, F.where(ma),
+           "analyze_member_access returns the enumerate index of the declared member whose name equals the accessed name",
+           sample=[sorted(map(str, r))[:12] for r in rets])
+    st = F.body("alpha::typer::analyze_structural")
+    got = []
+    for cb in [st]:
+        for path, n in hirq.constructs(cb["hir"]):
+            if hirq.short(path).endswith("MemberExpression") and n.get("k") == "Struct":
+                fe = [f for f in n.get("fields", []) if f.get("name") == "offset"]
+                if fe:
+                    got.append((cb, origins.origins(cb["hir"], fe[0].get("e") or fe[0].get("v"), cb.get("params", ()))))
+    ok = len(got) == 1 and ("call", "alpha::typer::Typer::analyze_member_access") in got[0][1] and not pos_based(got[0][1])
+    run.ob(RULE, "typer: structural literal", ok, F.where(st),
+           "the offset of a member in a structure literal comes from analyze_member_access (lookup by name), not from its position in the literal",
+           sample=[sorted(map(str, g[1]))[:12] for g in got])
+    gt = F.body("alpha::typer::Typer::get_type_of_reference")
+    asg = [n for n in walk(gt["hir"]) if n.get("k") == "Assign" and any(x.get("res") == "offset" for x in walk(n["lhs"]))]
+    oks = [origins.origins(gt["hir"], n["rhs"], gt.get("params", ())) for n in asg]
+    ok = len(oks) >= 1 and all(("call", "alpha::typer::Typer::analyze_member_access") in o and not pos_based(o) for o in oks)
+    run.ob(RULE, "typer: member step", ok, F.where(gt), "the offset of a `.member` step comes from analyze_member_access",
+           sample=[sorted(map(str, o))[:12] for o in oks])
+    # 2. resolver copies the offset
+    for path_, what, need in (("<alpha::common::MemberExpression as alpha::resolver::Resolvable>::resolve", "MemberExpression", ("field", "offset")),
+                              ("<alpha::common::ReferenceStep as alpha::resolver::Resolvable>::resolve", "ReferenceStep::Member", ("patfield", "ReferenceStep::Member", "offset"))):
+        rb = F.body(path_)
+        found = []
+        for path, n in hirq.constructs(rb["hir"]):
+            if hirq.short(path).endswith(what) and n.get("k") == "Struct" and "resolved" in path:
+                fe = [f for f in n.get("fields", []) if f.get("name") == "offset"]
+                if fe:
+                    found.append(origins.origins(rb["hir"], fe[0].get("e") or fe[0].get("v"), rb.get("params", ())))
+        ok = len(found) == 1 and need in found[0] and not pos_based(found[0])
+        run.ob(RULE, "resolver: " + what, ok, F.where(rb), "the resolved %s keeps the typer's offset" % what, sample=[sorted(map(str, o))[:12] for o in found])
+    # 3. generator: index operands
+    sl = F.body("alpha::generator::generate_structure_literal")
+    sites = [c for c in hirq.calls(sl["hir"]) if (hirq.callee(c) or "").endswith("LLVMBuildInsertValue")]
+    run.require(len(sites) == 1, "generate_structure_literal: expected one LLVMBuildInsertValue (found %d)" % len(sites))
+    o = origins.origins(sl["hir"], sites[0]["a"][3], sl.get("params", ()))
+    run.ob(RULE, "generator: structure literal", ("field", "offset") in o and not pos_based(o), F.where(sl, sites[0]),
+           "the insertvalue index of a structure literal is the member's resolved offset, not its position in the literal "
+           "(out-of-order literals would build a constant of the wrong shape, which LLVM's verifier does not look into)", sample=sorted(map(str, o))[:12])
+    ov = origins.origins(sl["hir"], sites[0]["a"][2], sl.get("params", ()))
+    run.ob(RULE, "generator: structure literal value", ("field", "expression") in ov, F.where(sl, sites[0]), "the inserted value is the member's own expression")
+    wd = F.body("alpha::generator::{Reference}::generate_word_deref")
+    ex = [c for c in hirq.calls(wd["hir"]) if (hirq.callee(c) or "").endswith("LLVMBuildExtractValue")]
+    want = {("patfield", "ReferenceStep::Member", "offset"), ("patfield", "ReferenceStep::Autodeslice", "offset")}
+    seen = set()
+    for c in ex:
+        o = origins.origins(wd["hir"], c["a"][2], wd.get("params", ()))
+        hit = want & o
+        seen |= hit
+        run.ob(RULE, "generator: word member %s" % sorted(h[1] for h in hit), len(hit) == 1 and not pos_based(o), F.where(wd, c),
+               "the extractvalue index is the step's own offset", sample=sorted(map(str, o))[:12])
+    run.ob(RULE, "generator: word member sites", seen == want, F.where(wd), "both step kinds extract by their offset (%s)" % sorted(seen))
+    sa = F.body("alpha::generator::{Reference}::generate_storage_address")
+    m = [x for x in hirq.matches(sa["hir"]) if hirq.arm_for(x, "ReferenceStep::Member") and hirq.arm_for(x, "ReferenceStep::Element")]
+    run.require(m, "generate_storage_address: match over ReferenceStep not found")
+    arm = hirq.arm_for(m[0], "ReferenceStep::Member")[0]
+    pushes = [c for c in hirq.calls(arm["body"]) if c.get("k") == "MethodCall" and c.get("name") == "push"]
+    consts = [hirq.unwrap_trivial(c["a"][0]) for c in pushes if hirq.callee(hirq.unwrap_trivial(c["a"][0])) == "alpha::generator::Generator::const_i32"]
+    oks = [origins.origins(sa["hir"], c["a"][0], sa.get("params", ())) for c in consts]
+    ok = len(pushes) == 1 and len(oks) == 1 and ("patfield", "ReferenceStep::Member", "offset") in oks[0]
+    run.ob(RULE, "generator: member address", ok, F.where(sa, arm), "the GEP index of a `.member` step is const_i32(offset)", sample=[sorted(map(str, o))[:12] for o in oks])
+
+
 def check(run):
     F = run.facts("B")
     r1_binary(run, F)
@@ -198,3 +283,4 @@ def check(run):
     r4_signed(run, F)
     c16.r5_agree(run, F)
     r6_lowering(run, F)
+    r7_member_index(run, F)
